@@ -179,7 +179,7 @@ class Lab:
     def run(self):
         rng = common.rng_for(self.prop, 'lab' + self.focus, self.case_id)
         cfg = store.default_cfg(rng, 0.7)
-        if self.focus == 'import':
+        if self.focus in ('import', 'packall'):
             cfg.target = rng.choice([1, 40, 150, 600])
         from .content import Pool  # pylint: disable=import-outside-toplevel
 
@@ -207,6 +207,12 @@ class Lab:
             if isinstance(op, list):
                 op = op[-1]
             op['on'] = 'a'
+            if self.focus == 'packall':
+                # several loose objects, a small pack target: one pack_all_loose call that fills several packs, cleaning after each
+                for c_ in rng.sample(range(len(pool)), rng.randint(3, len(pool))):
+                    runner.apply({'op': 'addLoose', 'on': 'a', 'c': c_, 'via': 'bytes'})
+                op = {'op': 'packAll', 'on': 'a', 'mode': rng.choice(store.MODES + [True, False]), 'validate': rng.random() < 0.7,
+                      'clean': rng.random() < 0.75}
             if want_import:
                 srcc = runner.conts['b']
                 # make sure the source holds enough objects for an import that flushes its cache several times
@@ -224,7 +230,7 @@ class Lab:
                     # budgets: everything streamed one by one / about two or three cache flushes / one single flush
                     op = {'op': 'import', 'on': 'a', 'src': 'b', 'ks': ks, 'compress': rng.random() < 0.5, 'iter': 'list', 'callback': False,
                           'budget': rng.choice([1, sizes[len(sizes) // 2] + 1, sizes[-1] + 1, sum(sizes) // 2 + 1, sum(sizes) // 3 + 1, 104857600])}
-            if op['op'] in ('addPacked', 'import') and 'power' not in self.parts and rng.random() < 0.5:
+            if op['op'] in ('addPacked', 'import', 'packAll') and 'power' not in self.parts and rng.random() < 0.5:
                 op['do_fsync'] = False
                 if op['op'] == 'addPacked' and rng.random() < 0.7:
                     op['no_holes'] = False  # (the final truncate() of no_holes flushes the buffer)
@@ -359,7 +365,7 @@ class Lab:
             if 'crash' in self.parts or 'power' in self.parts:
                 # once the operation has returned (k == n) everything it stored must survive as well
                 keep_k = sorted(expected_after) if k >= n and kind != 'delete' else keep
-                self._crash_point(runner, rc, cfg, pool, scratch, op, args, k, events, keep_k, univ, model_prefix, kind)
+                self._crash_point(runner, rc, cfg, pool, scratch, op, args, k, events, keep_k, univ, model_prefix, kind, expected_after)
             if 'fault' in self.parts and k < n:
                 self._fault_point(runner, rc, cfg, pool, scratch, op, args, k, events, keep, univ, model_prefix, kind, expected_after)
 
@@ -384,6 +390,15 @@ class Lab:
                     continue
                 except AssertionError as exc:
                     if 'Invalid pack ID -1' in str(exc) and allow_loud:
+                        # the one tolerated loud failure: an interrupted repack left the index pointing at the temporary pack;
+                        # the bytes must then be there ("exactly where the index says")
+                        if cid in keep:
+                            try:
+                                there = Raw(folder).recover(key) == pool.contents[cid]
+                            except Exception:  # pylint: disable=broad-except
+                                there = False
+                            if not there:
+                                probs.append(f'{label}: object cid {cid} is indexed in the temporary pack -1, but its bytes are not there')
                         continue
                     probs.append(f'{label}: reading cid {cid} failed with AssertionError {str(exc)[:80]}')
                     continue
@@ -442,7 +457,7 @@ class Lab:
                 return f'{label}: pack {pid} holds bytes that were never written to it'
         return None
 
-    def _crash_point(self, runner, rc, cfg, pool, scratch, op, args, k, events, keep, univ, model_prefix, kind):
+    def _crash_point(self, runner, rc, cfg, pool, scratch, op, args, k, events, keep, univ, model_prefix, kind, expected_after=None):
         d = os.path.join(scratch, f'crash{k}')
         _copy(rc.folder, d)
         log = os.path.join(scratch, f'crash{k}.log')
@@ -450,12 +465,14 @@ class Lab:
         ev_k, syncs, _ = read_log(log)
         self.bump('crash_points')
         deterministic = _norm(ev_k[:k]) == _norm(events[:k]) if k <= len(events) else False
+        crash_ok = False
         j = model_prefix(min(k, len(events)))
         allow_loud = kind == 'repackOne'
         if 'crash' in self.parts:
             probs = self._oracle(d, pool, cfg, set(keep), univ, allow_loud, f'killed before I/O call #{k} of {kind}')
             for p in probs[:1]:
                 self.failures.append({'signature': f'crash-{kind}-' + p.split(':', 1)[1].strip().split(' ')[0], 'text': p, 'replay': self._replay(op, k, 'crash')})
+            crash_ok = not probs
             if deterministic and getattr(self, 'trace_ok', False):
                 lo = runner._ask(f'store image crash a {j} 0 {args}')  # pylint: disable=protected-access
                 hi = runner._ask(f'store image crash a {j} 1000000 {args}')  # pylint: disable=protected-access
@@ -471,6 +488,7 @@ class Lab:
             probs = self._oracle(d, pool, cfg, set(keep), univ, allow_loud, f'power lost before I/O call #{k} of {kind}')
             for p in probs[:1]:
                 self.failures.append({'signature': f'power-{kind}-' + p.split(':', 1)[1].strip().split(' ')[0], 'text': p, 'replay': self._replay(op, k, 'power')})
+            crash_ok = not probs
             if deterministic and getattr(self, 'trace_ok', False):
                 lo = runner._ask(f'store image power a {j} 0 {args}')  # pylint: disable=protected-access
                 msg = self._compare_image(Raw(d), rc, pool, cfg, lo, lo, f'power loss before event {k} (model prefix {j})', 'exact')
@@ -478,7 +496,34 @@ class Lab:
                 if msg:
                     self.breaks.append({'where': msg[:300], 'model': lo[:300], 'real': '', 'theorem_or_correspondence': 'Dos.IO.powerImg vs the durable part of the folder',
                                         'case': {'op': op, 'cfg': cfg.as_dict(), 'k': k}})
+        # life goes on after the crash: at a few points per scenario the operation is run again on the folder left behind
+        if expected_after is not None and crash_ok and k % 5 == self.case_id % 5 and op.get('do_fsync') is not False:
+            what = 'power lost' if 'power' in self.parts else 'killed'
+            self._rerun(d, cfg, pool, op, kind, f'{what} before I/O call #{k} of {kind}', expected_after, univ, log,
+                        os.path.join(scratch, f'crash{k}.out'), k)
         shutil.rmtree(d, ignore_errors=True)
+
+    def _rerun(self, d, cfg, pool, op, kind, label, expected_after, univ, log, outp, k):
+        """once the fault has cleared / the machine is back: remove stale lock files, run the operation again on a fresh handle
+        (not for repack, whose interrupted state needs the documented manual step), and expect its full effect"""
+        if kind == 'repackOne':
+            return
+        for fn in os.listdir(os.path.join(d, 'packs')):
+            if fn.endswith('.lock'):
+                os.remove(os.path.join(d, 'packs', fn))
+        _run_op_child(d, cfg, pool, op, 'trace', -1, log, outp, self.src)
+        try:
+            out2 = json.load(open(outp))
+        except Exception:  # pylint: disable=broad-except
+            out2 = {'out': 'child-died'}
+        if str(out2.get('out', '')).startswith(('raised', 'child')):
+            self.failures.append({'signature': f'rerun-raised-{kind}', 'text': f'{label}: rerunning the operation on a fresh handle failed: {str(out2)[:200]}',
+                                  'replay': self._replay(op, k, 'rerun')})
+        else:
+            probs2 = self._oracle(d, pool, cfg, expected_after, univ, False, label + ', after the rerun')
+            for p in probs2[:1]:
+                self.failures.append({'signature': f'rerun-{kind}', 'text': p, 'replay': self._replay(op, k, 'rerun')})
+            self.bump('reruns')
 
     def _fault_point(self, runner, rc, cfg, pool, scratch, op, args, k, events, keep, univ, model_prefix, kind, expected_after):
         d = os.path.join(scratch, f'fault{k}')
@@ -505,25 +550,8 @@ class Lab:
             if msg:
                 self.breaks.append({'where': msg[:300], 'model': lo[:300], 'real': '', 'theorem_or_correspondence': 'Dos.IO.runFault vs the folder after an injected fault',
                                     'case': {'op': op, 'cfg': cfg.as_dict(), 'k': k}})
-        # once the fault clears: remove stale lock files, run the operation again on a fresh handle (not for repack)
-        if kind != 'repackOne' and not probs:
-            for fn in os.listdir(os.path.join(d, 'packs')):
-                if fn.endswith('.lock'):
-                    os.remove(os.path.join(d, 'packs', fn))
-            _run_op_child(d, cfg, pool, op, 'trace', -1, log, outp, self.src)
-            try:
-                out2 = json.load(open(outp))
-            except Exception:  # pylint: disable=broad-except
-                out2 = {'out': 'child-died'}
-            if str(out2.get('out', '')).startswith(('raised', 'child')):
-                self.failures.append({'signature': f'rerun-raised-{kind}', 'text': f'{label}: rerunning the operation on a fresh handle failed: {str(out2)[:200]}',
-                                      'replay': self._replay(op, k, 'rerun')})
-            else:
-                probs2 = self._oracle(d, pool, cfg, expected_after, univ, False, label + ', after the rerun')
-                extra = [c for c in univ if c not in expected_after]
-                for p in probs2[:1]:
-                    self.failures.append({'signature': f'rerun-{kind}', 'text': p, 'replay': self._replay(op, k, 'rerun')})
-                self.bump('reruns')
+        if not probs:
+            self._rerun(d, cfg, pool, op, kind, label, expected_after, univ, log, outp, k)
         shutil.rmtree(d, ignore_errors=True)
 
 
